@@ -32,17 +32,13 @@ def decNonzeroRats (j : Json) : D (List Rat) := do
 
 def opLatticeModel (j : Json) : D Json := do
   let bs ← decNonzeroRats (← jField j "bases")
-  let ns := nullspaceAsCoded bs
   pure (okJson [
-    ("basis", jsonIntMatrix (kernelAsCoded bs)),
+    ("basis", jsonIntMatrix (latticeAsCoded bs)),
     ("trivially_empty", Json.bool (isTriviallyEmpty bs)),
     ("has_one", Json.bool (bs.any (fun b => b == 1))),
-    ("nullspace", Json.arr (ns.map (fun v => Json.arr (v.map jsonRat).toArray)).toArray),
-    ("integral", Json.bool (ns.all (fun v => v.all isIntegralQ))),
-    ("prime_rows", jsonIntMatrix (primeRows bs)),
-    ("sign_row", jsonIntList (signRow bs)),
+    ("equations", jsonIntMatrix (equationsAsCoded bs)),
     ("model_passes", Json.bool (
-      let rows := kernelAsCoded bs
+      let rows := latticeAsCoded bs
       let k := bs.length
       rows.all (relationHolds bs) && independent k rows
         && (latticeBasis bs).all (fun e => inIntSpan k rows e)))])
